@@ -119,6 +119,12 @@ claim("C14", "exploration", "broker",
       "Held on the executions of the run apart from the known in-flight finding (max+1). An i/o timeout without injected silence is inconclusive; Close itself hanging is C12's clause.",
       "DESIGN.md §7 C14")
 
+claim("C10", "exploration", "fuzz",
+      "sanitizer-style runtime monitoring of every decoder that reads data the client does not control: each input is decoded in a sub-process under an address-space cap with the input journaled before the call, per-call allocation measured (runtime/metrics filter, exact MemStats re-measure, heap profile for the site), CPU-time watchdog for hangs, crash classification by panic/fatal class and innermost sarama function, content oracle for CRC-covered formats (altered checksummed span or disagreeing length must give an error or the partial indication, never other records), live Broker.responseReceiver and SASL reads fed by a raw server; built with checkptr",
+      "Seeds = valid encodings of every response body x version (from the C09 generator), response headers, RecordBatch / MessageSet / Message / Records, FetchResponse with nested records, member metadata / assignment, sticky user data (directly and through Plan); mutators: truncation at every position, bit flips, every 2-/4-byte window set to -1, 0, -2, 0x7fffffff, remaining+1, varints stretched / overflowed, compact lengths, corrupted and nested compressed payloads with and without recomputed CRC, random strings. ~2.3 million inputs in quick, ~46 million in thorough.",
+      "Held on the inputs of the run. Allocation bound: 64 KiB + 40 x input + bytes legitimately produced by decompression. Requests are out of scope. Response framing behind an altered length (partitions re-framed) is counted, not judged.",
+      "DESIGN.md §7 C10")
+
 def main():
     props = [json.loads(l) for l in open(os.path.join(HERE, "properties.jsonl"))]
     ids = [p["id"] for p in props]
